@@ -42,6 +42,7 @@ type EventSpec struct {
 	Fin   string // Msg Msgf MsgFunc Send
 	Msg   string
 	EvCtx string // if non-empty: Event.Ctx(context with this value) is called first
+	Hist  int    // if non-zero: History(Hist) runs on the same goroutine right before the event
 }
 
 // HookCall is one recorded hook invocation.
@@ -392,6 +393,10 @@ func (g *G) GenProgram(maxChain, maxEvents, maxOps int) *Program {
 			ex.Fields = f
 			ex.Written = !ex.Discarded
 		}
+		if r.Chance(1, 4) {
+			ev.Hist = 1 + r.Intn(NHistories)
+			g.hit(FeEvent, "#after-history")
+		}
 		p.Events = append(p.Events, ev)
 		p.Expect = append(p.Expect, ex)
 	}
@@ -651,6 +656,9 @@ func (x *Exec) Run(p *Program) (res Result) {
 	l := x.BuildLogger(zerolog.New(rec), p.Chain, rec, &hookLog)
 	for i := range p.Events {
 		ev := &p.Events[i]
+		if ev.Hist != 0 {
+			History(ev.Hist)
+		}
 		w0, h0 := len(rec.W), len(hookLog)
 		if runPlain(&l, ev) {
 			res.Writes = append(res.Writes, append([]Write(nil), rec.W[w0:]...))
